@@ -143,12 +143,14 @@ Definition check_step (n : nat) (s : state) (before0 : list (nat * list bool)) (
   | Some (s', o) => (Some s', tag (obs_eqb o (s_obs st)) 2 ++ state_tags s' ++ oracle)
   end.
 
-Fixpoint check_steps (n : nat) (s : state) (before : list (nat * list bool)) (rbefore : list nat) (g : bool) (l : list tstep)
-  : option state * bool * list (nat * list bool) * list nat :=
+(* g = (no upgrade at all [g_label], at most one upgrader at a time [g1_label]) *)
+Fixpoint check_steps (n : nat) (s : state) (before : list (nat * list bool)) (rbefore : list nat) (g : bool * bool) (l : list tstep)
+  : option state * (bool * bool) * list (nat * list bool) * list nat :=
   match l with
   | [] => (Some s, g, before, [])
   | st :: tl =>
-      let g' := g && (s_stutter st || g_label s (s_tid st, s_act st)) in
+      let g' := (fst g && (s_stutter st || g_label s (s_tid st, s_act st)),
+                 snd g && (s_stutter st || g1_label s (s_tid st, s_act st))) in
       match check_step n s before rbefore st with
       | (None, tags) => (None, g', s_bodies st, tags)
       | (Some s', tags) =>
@@ -184,7 +186,7 @@ Definition check_final (c : case) (s : state) (bod : list (nat * list bool)) : l
 
 Definition verdict (c : case) : list nat :=
   let n := c_nthreads c in
-  let '(r, g, bod, tags) := check_steps n init [] [] true (c_steps c) in
+  let '(r, g, bod, tags) := check_steps n init [] [] (true, true) (c_steps c) in
   nodup Nat.eq_dec
     (tags ++
      match r with
@@ -192,4 +194,4 @@ Definition verdict (c : case) : list nat :=
      | None => match c_final c with 1 => [22] | 2 => [23] | _ => [] end
      end ++
      tag (Nat.eqb (c_crash c) 0) 9 ++
-     tag g 201).
+     tag (fst g) 201 ++ tag (snd g) 203).
